@@ -151,24 +151,24 @@ struct ReplayFile {
 }
 
 fn tier_runs(property: &str, tier: &str) -> (u64, f64) {
-    // (number of scenarios, wall-clock cap in seconds); quick is sized for roughly 15-30 s on 16 cores
+    // (number of scenarios, wall-clock cap in seconds); quick is sized for roughly 20-60 s on 16 cores
     let quick: u64 = match property {
-        "C01" => 5000,
-        "C02" => 3000,
-        "C03" => 2500,
-        "C04" => 3000,
-        "C05" => 1500,
-        "C06" => 4000,
-        "C07" => 2500,
-        "C10" => 2000,
-        "C11" => 3000,
-        "C12" => 800,
-        "C17" => 6000,
+        "C01" => 10000,
+        "C02" => 6000,
+        "C03" => 5000,
+        "C04" => 6000,
+        "C05" => 2500,
+        "C06" => 8000,
+        "C07" => 5000,
+        "C10" => 4000,
+        "C11" => 6000,
+        "C12" => 1500,
+        "C17" => 10000,
         "C18" => 800,
         _ => 800,
     };
     match tier {
-        "thorough" => (quick * 30, 1500.0),
+        "thorough" => (if property == "C18" { quick * 30 } else { quick * 15 }, 1500.0),
         _ => (quick, 300.0),
     }
 }
